@@ -635,7 +635,8 @@ MASK_ALL = list(MASK_KINDS)
 MASK_REDUCED = ["Z1a", "O1a", "BEYx", "NEGx", "P2a", "P2b", "U3"]
 BLOCKS1 = (2, 3, 4)      # mask of tomogram 1: 6 x 9 x 12 voxels
 BLOCKS2 = (3, 2, 2)      # mask of tomogram 2: 9 x 6 x 6 voxels
-MASK_MODES = ["per-tomogram-arrays", "single-array", "per-tomogram-em-files", "single-mrc-file"]
+MASK_MODES = ["per-tomogram-arrays", "single-array", "per-tomogram-em-files", "single-mrc-file",
+              "single-array-all-zero", "per-tomogram-arrays-first-all-zero"]
 
 
 def mask_blocks(seed):
@@ -711,6 +712,9 @@ def make_mask_execute(seed, cfgs):
         rows = [mask_row(k, j, seed, shape1) for j, k in enumerate(kinds)]
         per_tomo = mode.startswith("per-tomogram")
         blocks_of = {1: b1, 2: b2 if per_tomo else b1}
+        if mode.endswith("all-zero"):
+            z1 = np.zeros_like(b1)
+            blocks_of = {1: z1, 2: b2 if per_tomo else z1}
         truth = {}
         out_of_volume_in = set()
         for k, r in zip(kinds, rows):
@@ -737,6 +741,10 @@ def make_mask_execute(seed, cfgs):
         elif mode == "single-mrc-file":
             mrcfmt.write("c09_m.mrc", expand(b1, np.float32))
             tomo_list, masks = [1, 2], "c09_m.mrc"
+        elif mode == "single-array-all-zero":
+            tomo_list, masks = [1, 2], expand(blocks_of[1], np.float32)
+        elif mode == "per-tomogram-arrays-first-all-zero":
+            tomo_list, masks = [1, 2], [expand(blocks_of[1], np.int8), expand(b2, np.int8)]
         else:
             raise HarnessError(mode)
         m = obs.lib("Motl.__init__", cm.Motl, make_frame(rows, gapped_index=(ci % 2 == 1)))
@@ -860,7 +868,7 @@ def families(tier, seed):
     # ---- tomogram mask ------------------------------------------------------------------------------------------
     mcfgs = [(mode, inpl) for mode in MASK_MODES for inpl in (True, False)]
     mevery = list(range(len(mcfgs)))
-    mspread = [0, 3, 4, 7]        # every mask mode once, inplace alternating
+    mspread = [0, 3, 4, 7, 8, 11]  # every mask mode once, inplace alternating
     mdeep = [mcfgs.index(("per-tomogram-arrays", True)), mcfgs.index(("single-array", False))]
     if thorough:
         mparts = [Product(sequences(MASK_ALL, 1, 3), mevery), Product(sequences(MASK_ALL, 4, 4), mspread)]
